@@ -4,6 +4,8 @@ CONSTANTS
     Loop = "alias"
     Family = "accum"
     Tier = "quick"
+    NanRule = "notconverged"
+    FluxRule = "segment"
     Reporter = "contract"
     EmitOn = FALSE
 INIT Init
